@@ -493,3 +493,18 @@ def static_choosers(spec):
     for r in roots:
         reach(r)
     return out
+
+
+def k6_excluded(ctx, ref, dicts, single_evaluation=False):
+    """Known finding K6 (keys omit what an absorbed failure read) can change an evaluate outcome only through the cache
+    key of a cached consumer around the absorbing expression: such runs carry the reference label 'absorbed-under-cache'.
+    With a fresh build per dictionary (single_evaluation) the stale entry must moreover come from the same evaluation,
+    i.e. some dataset is visited at least twice in it. Counts the exclusion; returns True when the case is to be skipped."""
+    if "no-coalesce-value-failure" not in ctx.flags:
+        return False
+    for o in dicts:
+        r = ref.run(o)
+        if "absorbed-under-cache" in r.labels and (not single_evaluation or any(len(v) >= 2 for v in r.visits.values())):
+            ctx.exclude("no-coalesce-value-failure")
+            return True
+    return False
